@@ -191,7 +191,9 @@ func scenarioStream(c *harness.Ctx) {
 		for k, d := range doomed {
 			d := d
 			dl := simnet.Pipe(w, fmt.Sprintf("doomed%d", k), simnet.DrawCfgFor(tp, len(d.bytes)), coarse())
-			w.Go(fmt.Sprintf("dying-peer%d", k), func() {
+			// (a daemon: a receiver may give up after the frame's first bytes and never
+			// read the rest, the peer then stays blocked on the window - not a verdict)
+			w.GoDaemon(fmt.Sprintf("dying-peer%d", k), func() {
 				dl.A.Write(d.bytes)
 				dl.A.Close()
 			})
@@ -204,6 +206,7 @@ func scenarioStream(c *harness.Ctx) {
 				} else {
 					_ = q.UnPack(dl.B, d.th)
 				}
+				dl.B.Close()
 			})
 		}
 		for i, p := range pairs {
